@@ -2,7 +2,7 @@
    With unit mobility the velocity term of every used junction is the resultant b = M T of the tensions pulling on it (C13 places
    it in the junction's own rows); then (T, 0) solves the augmented system exactly, and an injective augmented matrix has no other
    non-negative minimiser.  The effect of the three-decimal rounding of b is used as a tolerance by harness/props/c03.py. *)
-From Coq Require Import List Reals QArith.
+From Coq Require Import List Reals QArith ZArith.
 From Forsys Require Import Model.Num Model.PyList Model.Cert Model.Tracking Proofs.CertProofs Proofs.TrackingProofs Model.Round Proofs.RoundProofs.
 From Coq Require Import Qabs.
 Import ListNotations.
@@ -48,6 +48,11 @@ Proof. intros x m. exact (conj (round_dec_within_half 3 x) (round_dec_nearest 3 
 Theorem C03_rounded_rhs_moves_a_linear_solution_by_at_most : forall (row b : list Q),
   (Qabs (dotQ row (map (round_dec 3) b) - dotQ row b) <= abs_row_sum row * (1 # 2000))%Q.
 Proof. exact (rounded_rhs_perturbation 3). Qed.
+
+(* 1.2345 -> 1.234 and 1.2355 -> 1.236 (exact ties to even); a linear image of a rounded right-hand side *)
+Example C03_rounding_example : round_num 3 (12345 # 10000) = 1234%Z /\ round_num 3 (12355 # 10000) = 1236%Z /\
+  Qeq_bool (dotQ [2; -3]%Q (map (round_dec 3) [12345 # 10000; 1 # 3]%Q)) (2 * (1234 # 1000) - 3 * (333 # 1000))%Q = true.
+Proof. vm_compute. repeat split. Qed.
 
 Print Assumptions C03_resultant_velocity_solves.
 Print Assumptions C03_unique_minimiser.
